@@ -849,6 +849,18 @@ fn run_dynamic<D: TestDriver<Error = DrvError>>(
                         Ok(None) => {
                             flush_calls(sh, &mut local);
                             out(&mut local, "END none");
+                            // nothing happens once next() has returned None: ask twice more
+                            let mut after = String::from("AFTER");
+                            for _ in 0..2 {
+                                match catch_unwind(AssertUnwindSafe(|| it.next())) {
+                                    Ok(None) => after.push_str(" none"),
+                                    Ok(Some(Ok(_))) => after.push_str(" ROW"),
+                                    Ok(Some(Err(_))) => after.push_str(" ERR"),
+                                    Err(_) => after.push_str(" PANIC"),
+                                }
+                            }
+                            let _ = write!(after, " calls={}", flush_calls(sh, &mut local));
+                            out(&mut local, &after);
                             break;
                         }
                         Ok(Some(Err(e))) => {
@@ -1246,6 +1258,19 @@ fn run_case(c: &Case) -> String {
                     }
                     match c.kind.as_str() {
                         "run" => {
+                            // an iterator that is abandoned in the middle of its run (here: after two items, possibly in the
+                            // middle of an X / C expansion) leaves nothing behind for the iterators that come after it
+                            if c.seed % 4 == 1 {
+                                verif_hooks::set_seed_override(Some(c.seed));
+                                let _ = catch_unwind(AssertUnwindSafe(|| {
+                                    let mut pre = DriverOverrideW(Script::new(c, &tc.signals, Sh::default()));
+                                    if let Ok(mut it) = tc.try_iter(&mut pre) {
+                                        let _ = it.next();
+                                        let _ = it.next();
+                                    }
+                                }));
+                                let _ = verif_hooks::take_rng_log();
+                            }
                             if c.wdefault {
                                 let sh = Sh::default();
                                 let mut d = DriverDefaultW(Script::new(c, &tc.signals, sh.clone()));
